@@ -385,7 +385,7 @@ pub fn c11(tier: Tier, seed: u64) -> Verdict {
 fn growth_case() -> impl Fn(&History, &mut CurrentFile) -> (CaseStats, Option<Violation>) + Sync {
     move |h, cur| {
         cur.record(&history_value(h));
-        let res = crate::history::run_history(h);
+        let res = crate::history::run_history_for(h, "C12");
         let mut stats = CaseStats::default();
         let v = account("C12", h, &res, false, &mut stats);
         if v.is_none() && res.failures.is_empty() {
